@@ -1,11 +1,10 @@
-//! Kani harness: token-level rewrite operations serialise as documented (C07, C01 unmodified = raw,
-//! C15). Child module of `rewritable_units::tokens::end_tag`. Instantiation: EndTag (the before/after/
+//! Kani harness: token serialisation (C01: unmodified = raw; C15). The C07 mutation scripts are out of reach. Child module of `rewritable_units::tokens::end_tag`. Instantiation: EndTag (the before/after/
 //! replace/remove plumbing is the shared `impl_serialize!` + `Mutations` code of every token type).
 use super::*;
 use crate::base::Spanned;
 use crate::rewritable_units::Serialize;
 
-const OUT: usize = 16;
+const OUT: usize = 8;
 
 struct Out {
     buf: [u8; OUT],
@@ -13,8 +12,14 @@ struct Out {
 }
 
 fn push(o: &mut Out, b: &[u8]) {
+    // every piece handed to the sink in these scripts is at most 4 bytes long (the raw end tag); longer
+    // pieces are recorded as a length overflow so that the loop has a small concrete bound
+    if b.len() > 4 {
+        o.len = OUT + 1;
+        return;
+    }
     let mut i = 0;
-    while i < b.len() {
+    while i < b.len() && i < 4 {
         if o.len < OUT {
             o.buf[o.len] = b[i];
         }
@@ -23,88 +28,86 @@ fn push(o: &mut Out, b: &[u8]) {
     }
 }
 
-/// Every script of two operations from {before, after, replace, remove, nothing} (enumerated) on an end
-/// tag whose 4 raw bytes are symbolic: output = all `before` contents in call order, then the token's own
-/// bytes (or the last replacement if replaced; nothing if removed), then all `after` contents in reverse
-/// call order. An untouched token serialises as exactly its raw bytes.
-// @verif props=C07,C01,C15 fns=impl_serialize,MutationsInner::replace,MutationsInner::remove,DynamicString::encode,EndTag::serialize_self
-#[kani::proof]
-#[kani::unwind(18)]
-fn c07_token_mutation_scripts_serialise_as_documented() {
+/// One two-operation script over {0 before, 1 after, 2 replace, 3 remove, 4 nothing} on an end tag whose 4
+/// raw bytes are symbolic: output = all `before` contents in call order, then the token's own bytes (or
+/// the last replacement if replaced; nothing if removed), then all `after` contents in reverse call
+/// order. An untouched token serialises as exactly its raw bytes.
+fn run_script(ops: [u8; 2]) {
     let raw: [u8; 4] = kani::any();
     let contents: [&str; 2] = ["1", "2"];
-    let mut op0 = 0;
-    while op0 < 5 {
-        let mut op1 = 0;
-        while op1 < 5 {
-            let ops = [op0, op1];
-            let Token::EndTag(mut t) = EndTag::new_token(Bytes::new(&raw[2..3]), Spanned::new(0, Bytes::new(&raw)).into(), encoding_rs::UTF_8) else {
-                unreachable!()
-            };
-            // reference editor
-            let mut before = Out { buf: [0; OUT], len: 0 };
-            let mut after = Out { buf: [0; OUT], len: 0 };
-            let mut replacement: Option<&str> = None;
-            let mut removed = false;
-            let mut k = 0;
-            while k < 2 {
-                let c = contents[k];
-                match ops[k] {
-                    0 => {
-                        t.before(c, ContentType::Html);
-                        push(&mut before, c.as_bytes());
-                    }
-                    1 => {
-                        t.after(c, ContentType::Html);
-                        // after() prepends: later insertions come first
-                        let mut tmp = Out { buf: [0; OUT], len: 0 };
-                        push(&mut tmp, c.as_bytes());
-                        push(&mut tmp, &after.buf[..after.len]);
-                        after = tmp;
-                    }
-                    2 => {
-                        t.replace(c, ContentType::Html);
-                        replacement = Some(c);
-                        removed = true;
-                    }
-                    3 => {
-                        t.remove();
-                        removed = true;
-                    }
-                    _ => {}
-                }
-                k += 1;
+    let Token::EndTag(mut t) = EndTag::new_token(Bytes::new(&raw[2..3]), Spanned::new(0, Bytes::new(&raw)).into(), encoding_rs::UTF_8) else {
+        unreachable!()
+    };
+    let mut before = Out { buf: [0; OUT], len: 0 };
+    let mut after = Out { buf: [0; OUT], len: 0 };
+    let mut replacement: Option<&str> = None;
+    let mut removed = false;
+    let mut k = 0;
+    while k < 2 {
+        let c = contents[k];
+        match ops[k] {
+            0 => {
+                t.before(c, ContentType::Html);
+                push(&mut before, c.as_bytes());
             }
-            assert!(t.removed() == removed);
-            let mut want = Out { buf: [0; OUT], len: 0 };
-            push(&mut want, &before.buf[..before.len]);
-            if !removed {
-                push(&mut want, &raw);
-            } else if let Some(r) = replacement {
-                push(&mut want, r.as_bytes());
+            1 => {
+                t.after(c, ContentType::Html);
+                // after() prepends: later insertions come first
+                let mut tmp = Out { buf: [0; OUT], len: 0 };
+                push(&mut tmp, c.as_bytes());
+                push(&mut tmp, &after.buf[..after.len]);
+                after = tmp;
             }
-            push(&mut want, &after.buf[..after.len]);
-            let mut got = Out { buf: [0; OUT], len: 0 };
-            let r = t.into_bytes(&mut |b: &[u8]| push(&mut got, b));
-            assert!(r.is_ok());
-            assert!(got.len == want.len);
-            let mut i = 0;
-            while i < want.len {
-                assert!(got.buf[i] == want.buf[i]);
-                i += 1;
+            2 => {
+                t.replace(c, ContentType::Html);
+                replacement = Some(c);
+                removed = true;
             }
-            op1 += 1;
+            3 => {
+                t.remove();
+                removed = true;
+            }
+            _ => {}
         }
-        op0 += 1;
+        k += 1;
+    }
+    assert!(t.removed() == removed);
+    let mut want = Out { buf: [0; OUT], len: 0 };
+    push(&mut want, &before.buf[..before.len]);
+    if !removed {
+        push(&mut want, &raw);
+    } else if let Some(r) = replacement {
+        push(&mut want, r.as_bytes());
+    }
+    push(&mut want, &after.buf[..after.len]);
+    let mut got = Out { buf: [0; OUT], len: 0 };
+    let r = t.into_bytes(&mut |b: &[u8]| push(&mut got, b));
+    assert!(r.is_ok());
+    assert!(got.len == want.len);
+    let mut i = 0;
+    while i < want.len {
+        assert!(got.buf[i] == want.buf[i]);
+        i += 1;
     }
     kani::cover!(raw[0] == b'<');
+    core::mem::forget(r);
+}
+
+/// An untouched token serialises as exactly its raw bytes. (The scripts with before/after/replace/remove
+/// are kept in `run_script` but are NOT registered: heap-stored content strings become symbolic for the
+/// solver and every two-operation script needs > 10 GB — DESIGN §5, C07.)
+// @verif props=C01,C15 fns=impl_serialize,EndTag::serialize_self
+#[kani::proof]
+#[kani::unwind(8)]
+fn c01_untouched_token_serialises_as_its_raw_bytes() {
+    run_script([4, 4]);
 }
 
 /// Renaming: a renamed end tag serialises as "</" name ">" (no stale raw bytes), an untouched one as raw.
-// @verif props=C07,C15 fns=EndTag::set_name_raw,EndTag::serialize_self
+// @verif props=C01,C15 fns=EndTag::set_name_raw,EndTag::serialize_self
 #[kani::proof]
 #[kani::unwind(10)]
-fn c07_renamed_end_tag_serialises_from_its_parts() {
+fn c01_renamed_end_tag_serialises_from_its_parts() {
     let raw: [u8; 4] = kani::any();
     let Token::EndTag(mut t) = EndTag::new_token(Bytes::new(&raw[2..3]), Spanned::new(0, Bytes::new(&raw)).into(), encoding_rs::UTF_8) else {
         unreachable!()
